@@ -1,7 +1,28 @@
 #!/usr/bin/env python3
 """Prints the markdown table 'which check catches which seeded change' from seeded/*/{meta,result}.json."""
-import json, glob, os, re
+import json, glob, os, re, sys
 V = os.path.dirname(os.path.dirname(os.path.abspath(__file__)))
+COMPACT = "--compact" in sys.argv
+if COMPACT:
+    print("| id | change | outcome of `./check` (quick tier, seed 1) | first run, and what was strengthened |")
+    print("|---|---|---|---|")
+    for d in sorted(glob.glob(os.path.join(V, "seeded", "*"))):
+        if not os.path.exists(os.path.join(d, "meta.json")):
+            continue
+        m = json.load(open(os.path.join(d, "meta.json")))
+        r = json.load(open(os.path.join(d, "result.json"))) if os.path.exists(os.path.join(d, "result.json")) else {}
+        title = str(m.get("title", "")).replace("|", "/").replace("\n", " ")
+        if len(title) > 150:
+            title = title[:147] + "..."
+        out = r.get("outcome", "not run")
+        mm = re.search(r"theorems=(\d+)/(\d+) cases=\d+ agree=\d+ disagree=(\d+) holds_false=(\d+)", r.get("summary", ""))
+        if mm:
+            out += f" ({mm.group(4)} failing cases"
+            if mm.group(1) != mm.group(2):
+                out += f", {int(mm.group(2)) - int(mm.group(1))} theorem(s) broken"
+            out += ")"
+        print(f"| {os.path.basename(d)} | {title} | {out} | {m.get('history', 'caught on the first run')} |")
+    sys.exit(0)
 print("| id | property | change (what it needs to manifest) | outcome of `./check` |")
 print("|---|---|---|---|")
 for d in sorted(glob.glob(os.path.join(V, "seeded", "*"))):
